@@ -15,7 +15,8 @@ func init() { families = append(families, family{"C13", genC13}) }
 //   - the store type(s) guarding the isRootCACertificate loop in GetCertificates,
 //   - which validation calls GetCertificates makes before its first os.* call,
 //   - the regular expression of file.IsValidFileName and the names it rejects up front,
-//   - the fixed prefix of dir.X509TrustStoreDir.
+//   - the fixed prefix of dir.X509TrustStoreDir,
+//   - every use GetCertificates makes of its context parameter.
 func genC13() string {
 	var b strings.Builder
 	const tsFile = "verifier/truststore/truststore.go"
@@ -84,6 +85,44 @@ func genC13() string {
 		fail("%s: GetCertificates no longer calls isRootCACertificate", tsFile)
 	}
 	fmt.Fprintf(&b, "/-- store types for which `GetCertificates` demands `isRootCACertificate` of every certificate -/\ndef c13RootCheckedTypes : List String := %s\n\n", leanStrList(rootTypes))
+
+	// uses of the context parameter: method calls on it ("ctx.Err") and calls it is handed to ("arg:log.GetLogger")
+	ctxName := ""
+	for _, prm := range gc.Type.Params.List {
+		if exprText(prm.Type) == "context.Context" && len(prm.Names) == 1 {
+			ctxName = prm.Names[0].Name
+		}
+	}
+	var ctxUses []string
+	if ctxName != "" && ctxName != "_" {
+		accounted := map[*ast.Ident]bool{}
+		ast.Inspect(gc.Body, func(n ast.Node) bool {
+			c, ok := n.(*ast.CallExpr)
+			if !ok {
+				return true
+			}
+			if se, ok := c.Fun.(*ast.SelectorExpr); ok {
+				if id, ok := se.X.(*ast.Ident); ok && id.Name == ctxName {
+					ctxUses = append(ctxUses, "ctx."+se.Sel.Name)
+					accounted[id] = true
+				}
+			}
+			for _, a := range c.Args {
+				if id, ok := a.(*ast.Ident); ok && id.Name == ctxName {
+					ctxUses = append(ctxUses, "arg:"+callName(c))
+					accounted[id] = true
+				}
+			}
+			return true
+		})
+		ast.Inspect(gc.Body, func(n ast.Node) bool {
+			if id, ok := n.(*ast.Ident); ok && id.Name == ctxName && !accounted[id] {
+				ctxUses = append(ctxUses, "other")
+			}
+			return true
+		})
+	}
+	fmt.Fprintf(&b, "/-- every use `GetCertificates` makes of its context parameter -/\ndef c13ContextUses : List String := %s\n\n", leanStrList(ctxUses))
 
 	// validation calls made before the first os.* call
 	var before []string
